@@ -185,8 +185,14 @@ def gen_e3():
         yield f"'\\{e}' + 1 == {v + 1}", {}, "E3"
     for o in ("0", "7", "12", "101", "177", "00", "007"):
         yield f"'\\{o}' == {int(o, 8)}", {}, "E3"
-    for h in ("0", "41", "7f", "7F", "a", "0a"):
+    for h in ("0", "41", "7f", "7F", "a", "0a", "041", "00a", "001", "0000041", "07f", "000", "1", "F", "00000000000000000007"):
         yield f"'\\x{h}' == {int(h, 16)}", {}, "E3"
+    # (an escape takes ALL following hexadecimal / up to three octal digits)
+    yield "'\\x041' == 'A'", {}, "E3"
+    yield "'\\x00a' == '\\n'", {}, "E3"
+    yield "'\\x07f' < 100", {}, "E3"
+    yield "'\\x001'", {}, "E3"
+    yield "'\\0101' != 65", {}, "E3"          # three octal digits, then the character 1: a multi-character constant
     yield "'a' < 'b'", {}, "E3"
     yield "'a' + 1 == 'b'", {}, "E3"
     yield "'0' - 48 == 0", {}, "E3"
